@@ -1,0 +1,300 @@
+//go:build verif
+
+// Contracts for the deductive verifier in /verif (govc). Comment-only: nothing here is
+// compiled into lindb. Syntax: /verif/govc/spec.go. Calendar functions (cal_*) are the
+// assumed contract of package time, /verif/contracts/external/time.spec.
+
+package timeutil
+
+//@ # ---- specification functions (milliseconds) -------------------------------------
+//@ # input domain of timestamps: 1973-03 .. 2096-10 (ms); calMs: what the calendar contract covers
+//@ pure tsOK(t int64) bool = t >= 100000000000 && t <= 4000000000000
+//@ pure calMs(t int64) bool = t >= 0 && t <= 4102444800000
+//@ pure msDayStart(t int64) int64 = cal_daystart(t / 1000) * 1000
+//@ pure msMonthStart(t int64) int64 = cal_date(cal_year(t / 1000), cal_month(t / 1000), 1) * 1000
+//@ pure msYearStart(t int64) int64 = cal_date(cal_year(t / 1000), 1, 1) * 1000
+//@ # day calculator: segment = day, family = hour
+//@ pure daySeg(t int64) int64 = msDayStart(t)
+//@ pure dayFamilyTime(t int64) int64 = daySeg(t) + ((t - daySeg(t)) / 3600000) * 3600000
+//@ pure dayFamilyEnd(s int64) int64 = s + 3600000 - 1
+//@ # month calculator: segment = month, family = day
+//@ pure monthSeg(t int64) int64 = msMonthStart(t)
+//@ pure monthFamilyTime(t int64) int64 = msDayStart(t)
+//@ pure monthFamilyEnd(s int64) int64 = s + 86400000 - 1
+//@ # year calculator: segment = year, family = month
+//@ pure yearSeg(t int64) int64 = msYearStart(t)
+//@ pure yearFamilyTime(t int64) int64 = msMonthStart(t)
+//@ pure yearFamilyEnd(s int64) int64 = s + 86400000 * int64(cal_dim(cal_year(s / 1000), cal_month(s / 1000))) - 1
+
+//@ # ---- property C13 as lemmas over the specification functions ----------------------
+//@ lemma day_contain prop C13 using *: all(t, "int64", tsOK(t) ==> (dayFamilyTime(t) <= t && t <= dayFamilyEnd(dayFamilyTime(t))))
+//@ lemma day_idempotent prop C13 using *: all(t, "int64", all(u, "int64", (tsOK(t) && dayFamilyTime(t) <= u && u <= dayFamilyEnd(dayFamilyTime(t))) ==> dayFamilyTime(u) == dayFamilyTime(t)))
+//@ lemma day_tile prop C13 using *: all(t, "int64", tsOK(t) ==> dayFamilyTime(dayFamilyEnd(dayFamilyTime(t)) + 1) == dayFamilyEnd(dayFamilyTime(t)) + 1)
+//@ lemma month_contain prop C13 using *: all(t, "int64", tsOK(t) ==> (monthFamilyTime(t) <= t && t <= monthFamilyEnd(monthFamilyTime(t))))
+//@ lemma month_idempotent prop C13 using *: all(t, "int64", all(u, "int64", (tsOK(t) && monthFamilyTime(t) <= u && u <= monthFamilyEnd(monthFamilyTime(t))) ==> monthFamilyTime(u) == monthFamilyTime(t)))
+//@ lemma month_tile prop C13 using *: all(t, "int64", tsOK(t) ==> monthFamilyTime(monthFamilyEnd(monthFamilyTime(t)) + 1) == monthFamilyEnd(monthFamilyTime(t)) + 1)
+//@ lemma year_contain prop C13 using *: all(t, "int64", tsOK(t) ==> (yearFamilyTime(t) <= t && t <= yearFamilyEnd(yearFamilyTime(t))))
+//@ lemma year_idempotent prop C13 using *: all(t, "int64", all(u, "int64", (tsOK(t) && yearFamilyTime(t) <= u && u <= yearFamilyEnd(yearFamilyTime(t))) ==> yearFamilyTime(u) == yearFamilyTime(t)))
+//@ lemma year_tile prop C13 using *: all(t, "int64", tsOK(t) ==> yearFamilyTime(yearFamilyEnd(yearFamilyTime(t)) + 1) == yearFamilyEnd(yearFamilyTime(t)) + 1)
+
+
+//@ # ---- calculators behind the interface: kind 1 = day, 2 = month, 3 = year ---------------
+//@ uf calc_kind(ref) int
+//@ axiom calc_kind_day: all(x, "ref", typeis(x, "*day") ==> calc_kind(x) == 1)
+//@ axiom calc_kind_month: all(x, "ref", typeis(x, "*month") ==> calc_kind(x) == 2)
+//@ axiom calc_kind_year: all(x, "ref", typeis(x, "*year") ==> calc_kind(x) == 3)
+//@ pure kindOK(k int) bool = k >= 1 && k <= 3
+//@ pure kSeg(k int, t int64) int64 = ite(k == 1, daySeg(t), ite(k == 2, monthSeg(t), yearSeg(t)))
+//@ pure kFamilyTime(k int, t int64) int64 = ite(k == 1, dayFamilyTime(t), ite(k == 2, monthFamilyTime(t), yearFamilyTime(t)))
+//@ pure kFamilyEnd(k int, s int64) int64 = ite(k == 1, dayFamilyEnd(s), ite(k == 2, monthFamilyEnd(s), yearFamilyEnd(s)))
+//@ pure kFamily(k int, t int64, seg int64) int = ite(k == 1, int((t - seg) / 3600000), ite(k == 2, cal_day(t / 1000), cal_month(t / 1000)))
+//@ pure kFamilyStart(k int, seg int64, fam int) int64 = ite(k == 1, seg + int64(fam) * 3600000, ite(k == 2, cal_date(cal_year(seg / 1000), cal_month(seg / 1000), fam) * 1000, cal_date(cal_year(seg / 1000), fam, 1) * 1000))
+//@ pure isFamilyStart(k int, s int64) bool = calMs(s) && ite(k == 1, true, ite(k == 2, s == msDayStart(s), s == msMonthStart(s)))
+//@ lemma k_contain prop C13 using *: all(k, "int", all(t, "int64", (kindOK(k) && tsOK(t)) ==> (kFamilyTime(k, t) <= t && t <= kFamilyEnd(k, kFamilyTime(k, t)) && isFamilyStart(k, kFamilyTime(k, t)))))
+//@ lemma k_compose prop C13 using *: all(k, "int", all(t, "int64", (kindOK(k) && tsOK(t)) ==> (kFamilyStart(k, kSeg(k, t), kFamily(k, t, kSeg(k, t))) == kFamilyTime(k, t) && calMs(kSeg(k, t)) && kSeg(k, t) <= t)))
+
+//@ func IntervalCalculator.CalcSegmentTime
+//@   requires tsOK(timestamp)
+//@   ensures kindOK(calc_kind(self)) && result == kSeg(calc_kind(self), timestamp)
+//@ end
+//@ func IntervalCalculator.CalcFamily
+//@   requires tsOK(timestamp) && calMs(segmentTime) && segmentTime <= timestamp
+//@   ensures kindOK(calc_kind(self)) && result == kFamily(calc_kind(self), timestamp, segmentTime)
+//@ end
+//@ func IntervalCalculator.CalcFamilyTime
+//@   requires tsOK(timestamp)
+//@   ensures kindOK(calc_kind(self)) && result == kFamilyTime(calc_kind(self), timestamp)
+//@ end
+//@ func IntervalCalculator.CalcFamilyStartTime
+//@   requires calMs(segmentTime) && familyTime >= 0 && familyTime < 1000000
+//@   ensures kindOK(calc_kind(self)) && result == kFamilyStart(calc_kind(self), segmentTime, familyTime)
+//@ end
+//@ func IntervalCalculator.CalcSlot
+//@   requires interval >= 1000 && tsOK(timestamp) && calMs(baseTime) && baseTime <= timestamp
+//@   requires timestamp <= kFamilyEnd(calc_kind(self), baseTime)
+//@   requires (calc_kind(self) == 2 ==> interval >= 300000) && (calc_kind(self) == 3 ==> interval >= 3600000)
+//@   ensures result >= 0 && result < 65536
+//@   ensures baseTime + int64(result) * interval <= timestamp
+//@   ensures timestamp < baseTime + int64(result) * interval + interval
+//@ end
+//@ func IntervalCalculator.CalcFamilyEndTime
+//@   requires isFamilyStart(calc_kind(self), familyStartTime)
+//@   ensures kindOK(calc_kind(self)) && result == kFamilyEnd(calc_kind(self), familyStartTime)
+//@ end
+
+//@ # ---- time.go -------------------------------------------------------------------------
+//@ func Truncate
+//@   prop C13
+//@   arith math
+//@   requires interval > 0 && timestamp >= 0
+//@   ensures result <= timestamp && timestamp < result + interval
+//@   ensures result % interval == 0
+//@ end
+
+//@ # ---- day ------------------------------------------------------------------------------
+//@ func day.CalcSegmentTime
+//@   prop C13
+//@   arith math
+//@   requires tsOK(timestamp)
+//@   ensures result == daySeg(timestamp)
+//@ end
+//@ func day.CalcFamily
+//@   prop C13
+//@   arith math
+//@   requires tsOK(timestamp) && calMs(segmentTime) && segmentTime <= timestamp
+//@   ensures int64(result) == (timestamp - segmentTime) / 3600000
+//@ end
+//@ func day.CalcFamilyStartTime
+//@   prop C13
+//@   arith math
+//@   requires calMs(segmentTime) && familyTime >= 0 && familyTime < 1000000
+//@   ensures result == segmentTime + int64(familyTime) * 3600000
+//@ end
+//@ func day.CalcFamilyEndTime
+//@   prop C13
+//@   arith math
+//@   requires calMs(familyStartTime)
+//@   ensures result == dayFamilyEnd(familyStartTime)
+//@ end
+//@ func day.CalcFamilyTime
+//@   prop C13
+//@   arith math
+//@   requires tsOK(timestamp)
+//@   ensures result == dayFamilyTime(timestamp)
+//@ end
+//@ func day.CalcSlot
+//@   prop C13
+//@   arith math
+//@   requires interval >= 1000 && tsOK(timestamp) && calMs(baseTime) && baseTime <= timestamp
+//@   requires timestamp <= dayFamilyEnd(baseTime)
+//@   ensures result >= 0 && result < 65536
+//@   ensures baseTime + int64(result) * interval <= timestamp
+//@   ensures timestamp < baseTime + int64(result) * interval + interval
+//@ end
+
+//@ # ---- month ----------------------------------------------------------------------------
+//@ func month.CalcSegmentTime
+//@   prop C13
+//@   arith math
+//@   requires tsOK(timestamp)
+//@   ensures result == monthSeg(timestamp)
+//@ end
+//@ func month.CalcFamily
+//@   prop C13
+//@   arith math
+//@   params timestamp segmentTime
+//@   requires tsOK(timestamp)
+//@   ensures result == cal_day(timestamp / 1000)
+//@ end
+//@ func month.CalcFamilyStartTime
+//@   prop C13
+//@   arith math
+//@   requires calMs(segmentTime) && familyTime >= 0 && familyTime < 1000000
+//@   ensures result == cal_date(cal_year(segmentTime / 1000), cal_month(segmentTime / 1000), familyTime) * 1000
+//@ end
+//@ func month.CalcFamilyEndTime
+//@   prop C13
+//@   arith math
+//@   requires calMs(familyStartTime) && familyStartTime == msDayStart(familyStartTime)
+//@   ensures result == monthFamilyEnd(familyStartTime)
+//@ end
+//@ func month.CalcFamilyTime
+//@   prop C13
+//@   arith math
+//@   requires tsOK(timestamp)
+//@   ensures result == monthFamilyTime(timestamp)
+//@ end
+//@ func month.CalcSlot
+//@   prop C13
+//@   arith math
+//@   requires interval >= 300000 && tsOK(timestamp) && calMs(baseTime) && baseTime <= timestamp
+//@   requires timestamp <= monthFamilyEnd(baseTime)
+//@   ensures result >= 0 && result < 65536
+//@   ensures baseTime + int64(result) * interval <= timestamp
+//@   ensures timestamp < baseTime + int64(result) * interval + interval
+//@ end
+
+//@ # ---- year -----------------------------------------------------------------------------
+//@ func year.CalcSegmentTime
+//@   prop C13
+//@   arith math
+//@   requires tsOK(timestamp)
+//@   ensures result == yearSeg(timestamp)
+//@ end
+//@ func year.CalcFamily
+//@   prop C13
+//@   arith math
+//@   params timestamp segmentTime
+//@   requires tsOK(timestamp)
+//@   ensures result == cal_month(timestamp / 1000)
+//@ end
+//@ func year.CalcFamilyStartTime
+//@   prop C13
+//@   arith math
+//@   requires calMs(segmentTime) && familyTime >= 0 && familyTime < 1000000
+//@   ensures result == cal_date(cal_year(segmentTime / 1000), familyTime, 1) * 1000
+//@ end
+//@ func year.CalcFamilyEndTime
+//@   prop C13
+//@   arith math
+//@   requires calMs(familyStartTime) && familyStartTime == msMonthStart(familyStartTime)
+//@   ensures result == yearFamilyEnd(familyStartTime)
+//@ end
+//@ func year.CalcFamilyTime
+//@   prop C13
+//@   arith math
+//@   requires tsOK(timestamp)
+//@   ensures result == yearFamilyTime(timestamp)
+//@ end
+//@ func year.CalcSlot
+//@   prop C13
+//@   arith math
+//@   requires interval >= 3600000 && tsOK(timestamp) && calMs(baseTime) && baseTime <= timestamp
+//@   requires timestamp - baseTime < 2678400000
+//@   ensures result >= 0 && result < 65536
+//@   ensures baseTime + int64(result) * interval <= timestamp
+//@   ensures timestamp < baseTime + int64(result) * interval + interval
+//@ end
+//@ func CalcTimestamp
+//@   prop C13
+//@   arith math
+//@   requires calMs(startTime) && slot >= 0 && slot < 65536 && int64(interval) >= 0 && int64(interval) <= 86400000
+//@   ensures result == startTime + int64(slot) * int64(interval)
+//@ end
+
+//@ # ---- time.go / interval.go / time_range.go -------------------------------------------
+//@ func CalPointCount
+//@   prop C13
+//@   arith math
+//@   requires interval > 0 && calMs(startTime) && calMs(endTime) && startTime <= endTime
+//@   ensures result >= 1
+//@   ensures endTime - startTime <= int64(result) * interval
+//@   ensures endTime - startTime > 0 ==> int64(result - 1) * interval < endTime - startTime
+//@ end
+//@ func CalIntervalRatio
+//@   prop C13
+//@   arith math
+//@   requires queryInterval >= 0 && storageInterval >= 0 && queryInterval <= 1000000000000 && storageInterval <= 1000000000000
+//@   ensures result >= 1
+//@   ensures (storageInterval > 0 && queryInterval >= storageInterval) ==> (int64(result) * storageInterval <= queryInterval && queryInterval < int64(result) * storageInterval + storageInterval)
+//@   ensures (storageInterval == 0 || queryInterval < storageInterval) ==> result == 1
+//@ end
+//@ func Interval.Type
+//@   prop C13
+//@   arith math
+//@   ensures int64(i) >= 3600000 ==> result == Year
+//@   ensures (int64(i) >= 300000 && int64(i) < 3600000) ==> result == Month
+//@   ensures int64(i) < 300000 ==> result == Day
+//@ end
+//@ globalinv typeis(dayCalculator, "*day") && typeis(monthCalculator, "*month") && typeis(yearCalculator, "*year") && dayCalculator != nil && monthCalculator != nil && yearCalculator != nil
+//@ func Interval.Calculator
+//@   prop C13
+//@   arith math
+//@   ensures result != nil
+//@   ensures int64(i) >= 3600000 ==> calc_kind(result) == 3
+//@   ensures (int64(i) >= 300000 && int64(i) < 3600000) ==> calc_kind(result) == 2
+//@   ensures int64(i) < 300000 ==> calc_kind(result) == 1
+//@ end
+//@ func TimeRange.Contains
+//@   prop C13
+//@   arith math
+//@   ensures result == (timestamp >= r.Start && timestamp <= r.End)
+//@ end
+//@ func TimeRange.Overlap
+//@   prop C13
+//@   arith math
+//@   ensures (r.Start <= r.End && o.Start <= o.End) ==> (result == (r.Start <= o.End && o.Start <= r.End))
+//@ end
+//@ func TimeRange.Intersect
+//@   prop C13
+//@   arith math
+//@   ensures result.Start == ite(o.Start > r.Start, o.Start, r.Start)
+//@   ensures result.End == ite(o.End < r.End, o.End, r.End)
+//@ end
+//@ func SlotRange.Contains
+//@   prop C13
+//@   arith math
+//@   ensures result == (slot >= sr.Start && slot <= sr.End)
+//@ end
+//@ func SlotRange.Overlap
+//@   prop C13
+//@   arith math
+//@   ensures (sr.Start <= sr.End && o.Start <= o.End) ==> (result == (sr.Start <= o.End && o.Start <= sr.End))
+//@ end
+//@ func SlotRange.Union
+//@   prop C13
+//@   arith math
+//@   ensures result.Start == ite(o.Start < sr.Start, o.Start, sr.Start)
+//@   ensures result.End == ite(o.End > sr.End, o.End, sr.End)
+//@ end
+//@ func Interval.CalcSlotRange
+//@   prop C13
+//@   arith math
+//@   uses k_contain
+//@   requires int64(i) >= 1000 && int64(i) <= 86400000
+//@   requires tsOK(familyTime) && isFamilyStart(ite(int64(i) >= 3600000, 3, ite(int64(i) >= 300000, 2, 1)), familyTime)
+//@   requires tsOK(timeRange.Start) && tsOK(timeRange.End) && timeRange.Start <= timeRange.End
+//@   requires timeRange.Start <= kFamilyEnd(ite(int64(i) >= 3600000, 3, ite(int64(i) >= 300000, 2, 1)), familyTime) && familyTime <= timeRange.End
+//@   ensures familyTime + int64(result.Start) * int64(i) <= ite(timeRange.Start > familyTime, timeRange.Start, familyTime)
+//@   ensures ite(timeRange.Start > familyTime, timeRange.Start, familyTime) < familyTime + int64(result.Start) * int64(i) + int64(i)
+//@ end
